@@ -349,6 +349,33 @@ func run(c *core.Ctx) {
 		}
 	}
 
+	// size ladder: vertex / primitive counts around every power of two (thresholds a change may
+	// introduce lie far above S_mesh): every operation, default parameter variants
+	lk := 10
+	if th {
+		lk = 12
+	}
+	c.Bound("single.size_ladder", fmt.Sprintf("n = 2^k-1, 2^k, 2^k+1 primitives for k=3..%d: welded strip (non-identity order, two material ranges, all attributes), palette strip (three weld classes), unwelded soup, reversed point cloud", lk))
+	for kk := 3; kk <= lk; kk++ {
+		for _, n := range []int{1<<kk - 1, 1 << kk, 1<<kk + 1} {
+			for _, s := range ml.LadderSpecs(n) {
+				if !c.Next() {
+					continue
+				}
+				if c.Expired() {
+					return
+				}
+				sh := ml.ShapeOfSpec(s)
+				skey := fmt.Sprintf("ladder %s n=%d mix=%s pal=%v", s.Topo, n, s.Mix, s.Pos != nil)
+				for _, op := range ops {
+					for vi, p := range op.Variants(sh, false) {
+						k.single(s, skey, sh, op, vi, p)
+					}
+				}
+			}
+		}
+	}
+
 	// (c) ordered pairs of operations
 	pv, pp := 2, 2
 	mixes := []string{"all"}
